@@ -17,7 +17,9 @@ import props
 import oracles
 from pipeline import VERIF, REPO, BUILD
 
-EVID = os.path.join(VERIF, "evidence")
+# evidence/ only ever describes runs against /repo itself; a development run against a scratch copy (VERIF_REPO set by
+# gen/trymutant.py) writes its evidence and replay files under .build/
+EVID = os.path.join(VERIF, "evidence") if os.path.realpath(REPO) == "/repo" else os.path.join(BUILD, "scratch_evidence")
 KNOWN = os.path.join(VERIF, "KNOWN_FINDINGS.txt")
 
 OBSERVERS = {
